@@ -2,6 +2,7 @@
 import re
 from rulelib import *
 from factbase import AnchorError, op_place, op_const
+from props import pico_shared
 
 TITLE = "Distinct memoized functions never share cached results"
 TECHNIQUE = "constant-table extraction from #[memo] expansions in MIR (workspace + never-run probe crate)"
@@ -90,6 +91,8 @@ def run(cx):
     cx.ob("R04.intern-families", "intern_value-vs-intern_ref", ok,
           "intern_value must hash a wrapper type so that value- and ref-interned nodes of equal content get "
           "different ids (a Value-kind MemoRef would otherwise read a RawPtr or vice versa)", iv.loc())
+    # garbage collection keeps the id -> (value, dependencies) association
+    pico_shared.gc_index_fidelity(cx, p, "R04.gc-index-fidelity")
     hf = p.one(r"pico::macro_fns::hash$")
     tid = [t for t in hf.calls() if term_calls(t, r"TypeId::of$")]
     cx.ob("R04.intern-families", "hash-includes-type-id", len(tid) == 1,
